@@ -452,7 +452,12 @@ var builtinRename = map[string]string{
 
 var identCallRe = regexp.MustCompile(`\b([A-Za-z_]\w*)\s*\(`)
 
+var genericCallRe = regexp.MustCompile(`\b(ufr|typeIs)\s*\[`)
+
 func renameBuiltins(s string) string {
+	s = genericCallRe.ReplaceAllStringFunc(s, func(m string) string {
+		return "gh_" + m
+	})
 	return identCallRe.ReplaceAllStringFunc(s, func(m string) string {
 		name := identCallRe.FindStringSubmatch(m)[1]
 		// do not touch selectors like x.old(
